@@ -165,6 +165,9 @@ func genMixed(seed uint64, fam string, pf profile) *Scenario {
 			// own stream: the rest of the scenario is the same with and without this profile knob
 			r2 := common.NewRng(common.H(seed, "builtin", i))
 			b.FinEwma = r2.Chance(1, 3)
+			if b.Filler == "nop" && r2.Bool() {
+				b.Filler = "nilfunc"
+			}
 			for _, ds := range [][]DecSpec{b.Pre, b.App} {
 				for di := range ds {
 					if ds[di].Kind == "sync" || !r2.Chance(pf.builtinP, 100) {
